@@ -117,6 +117,10 @@ class Synth(object):
         for c in d['classes']:
             for sm in c.get('sms', []):
                 self.state_machine(c, sm)
+        for i in d.get('ifaces', []):
+            self.iface(i)
+        for po in d.get('ports', []):
+            self.port(po)
         for f in d.get('funcs', []):
             self.func(f)
         for e in d.get('ees', []):
@@ -329,6 +333,53 @@ class Synth(object):
                     self.row('SM_ACT', Act_ID=taid, SM_ID=smid, Suc_Pars=1, Action_Semantics_internal=st['tbody'], Descrip='', Dialect=0)
                     self.row('SM_AH', Act_ID=taid, SM_ID=smid)
                     self.row('SM_TAH', Act_ID=taid, SM_ID=smid, Trans_ID=tid)
+
+    def iface(self, i):
+        """an interface: executable properties (operations with a return type, signals) with their parameters"""
+        iid = self.id()
+        self.ifc = getattr(self, 'ifc', {})
+        self.row('C_I', Id=iid, Package_ID=0, Name=i['n'], Descrip='')
+        self.pe(iid, '', 6)
+        eps = []
+        prev = {'op': 0, 'sig': 0}
+        for numb, ep in enumerate(i['eps']):
+            eid = self.id()
+            eps.append((ep, eid))
+            self.row('C_EP', Id=eid, Interface_Id=iid, Direction=0, Name=ep['n'], Descrip='', Numb=numb)
+            if ep['k'] == 'op':
+                self.row('C_IO', Id=eid, DT_ID=self.type_id(ep.get('ret', 'void')), Name=ep['n'], Descrip='', Direction=0,
+                         Return_Dimensions='', Previous_Id=prev['op'])
+            else:
+                self.row('C_AS', Id=eid, Name=ep['n'], Descrip='', Direction=0, Previous_Id=prev['sig'])
+            prev[ep['k']] = eid
+            pp = 0
+            for p in ep.get('params', []):
+                pid = self.id()
+                self.row('C_PP', PP_Id=pid, Signal_Id=eid, DT_ID=self.type_id(p['ty']), Name=p['n'], Descrip='', By_Ref=0,
+                         Dimensions=p.get('dims', ''), Previous_PP_Id=pp)
+                pp = pid
+        self.ifc[i['n']] = (iid, eps)
+
+    def port(self, po):
+        """a port of a component that requires ('R') or provides ('P') an interface; one message body per executable
+        property (po['bodies'][name], '' when missing)"""
+        iid, eps = self.ifc[po['iface']]
+        poid, irid = self.id(), self.id()
+        self.row('C_PO', Id=poid, Component_Id=self.comp[po['comp']], Name=po['n'], Mult=0, DoNotShowPortOnCanvas=False, Key_Lett='')
+        self.row('C_IR', Id=irid, Formal_Interface_Id=iid, Delegation_Id=0, Port_Id=poid)
+        if po['k'] == 'R':
+            self.row('C_R', Requirement_Id=irid, Name=po['iface'], Descrip='', InformalName='', reversePathFromComponent='')
+        else:
+            self.row('C_P', Provision_Id=irid, Name=po['iface'], InformalName='', Descrip='', pathFromComponent='')
+        for ep, eid in eps:
+            xid = self.id()
+            body = po.get('bodies', {}).get(ep['n'], '')
+            if po['k'] == 'R':
+                self.row('SPR_REP', Id=xid, ExecutableProperty_Id=eid, Requirement_Id=irid)
+            else:
+                self.row('SPR_PEP', Id=xid, ExecutableProperty_Id=eid, Provision_Id=irid)
+            table = 'SPR_%s%s' % (po['k'], 'O' if ep['k'] == 'op' else 'S')
+            self.row(table, Id=xid, Name=ep['n'], Descrip='', Action_Semantics_internal=body, Suc_Pars=1, Dialect=0, Numb=0)
 
     def func(self, f):
         sid = self.id()
